@@ -114,6 +114,8 @@ type OpResult struct {
 	Handlers []string // what the handlers and the body of $xboth saw, in call order
 	UndefIn  int      // times the body of $xundef was entered
 	val      interface{} // raw result of a successful Eval (task-local)
+	vars     map[string]*docInst // the Expr's registered documents at the time of the op (after "erebind" they differ from the final ones)
+	varsAt   bool
 	T0, T1   int64    // simulated clock around the op (engine B)
 	Steps    int
 }
@@ -151,6 +153,78 @@ type runner struct {
 	model   *regModel
 }
 
+// carve re-homes all []interface{} of v as windows of one backing array (see
+// DocSpec.Carve). Deterministic: maps are walked in key order and the
+// placement order is a fixed permutation derived from the number of arrays.
+func carve(v interface{}) interface{} {
+	var lens []int
+	var count func(v interface{})
+	count = func(v interface{}) {
+		switch x := v.(type) {
+		case map[string]interface{}:
+			for _, k := range sortedKeys(x) {
+				count(x[k])
+			}
+		case []interface{}:
+			lens = append(lens, len(x))
+			for _, e := range x {
+				count(e)
+			}
+		}
+	}
+	count(v)
+	if len(lens) < 2 {
+		return v
+	}
+	// placement order: a permutation of the arrays (splitmix64 over the index)
+	order := make([]int, len(lens))
+	for i := range order {
+		order[i] = i
+	}
+	rng := engine.NewRNG(uint64(len(lens)), "carve")
+	for i := len(order) - 1; i > 0; i-- {
+		j := rng.Intn(i + 1)
+		order[i], order[j] = order[j], order[i]
+	}
+	off := make([]int, len(lens))
+	total := 0
+	for _, idx := range order {
+		off[idx] = total
+		total += lens[idx]
+	}
+	backing := make([]interface{}, total)
+	n := 0
+	var walk func(v interface{}) interface{}
+	walk = func(v interface{}) interface{} {
+		switch x := v.(type) {
+		case map[string]interface{}:
+			for _, k := range sortedKeys(x) {
+				x[k] = walk(x[k])
+			}
+			return x
+		case []interface{}:
+			idx := n
+			n++
+			w := backing[off[idx] : off[idx]+len(x)]
+			for i, e := range x {
+				w[i] = walk(e)
+			}
+			return w
+		}
+		return v
+	}
+	return walk(v)
+}
+
+func sortedKeys(m map[string]interface{}) []string {
+	ks := make([]string, 0, len(m))
+	for k := range m {
+		ks = append(ks, k)
+	}
+	sort.Strings(ks)
+	return ks
+}
+
 // cur is the runner of the run in progress (found by extensions and fault
 // hooks, which have no receiver).
 var cur *runner
@@ -180,6 +254,9 @@ func buildDoc(d DocSpec) *docInst {
 				}
 			}
 		}
+	}
+	if d.Carve {
+		di.val = carve(di.val)
 	}
 	if d.Typed {
 		// Go-typed containers instead of the generic ones encoding/json
@@ -237,7 +314,7 @@ func tripleKey(text string, doc *docInst, vars map[string]*docInst, exts bool) s
 	if doc != nil {
 		b.WriteString(doc.spec.JSON)
 		b.WriteString(strings.Join(doc.spec.Alias, ">"))
-		b.WriteString("#" + doc.spec.Member + "#" + strings.Join(doc.spec.Subslice, ",") + fmt.Sprint(doc.spec.Typed))
+		b.WriteString("#" + doc.spec.Member + "#" + strings.Join(doc.spec.Subslice, ",") + fmt.Sprint(doc.spec.Typed, doc.spec.Carve))
 	}
 	b.WriteByte(0)
 	names := make([]string, 0, len(vars))
@@ -247,7 +324,7 @@ func tripleKey(text string, doc *docInst, vars map[string]*docInst, exts bool) s
 	sort.Strings(names)
 	for _, n := range names {
 		vs := vars[n].spec
-		b.WriteString(n + "=" + vs.JSON + strings.Join(vs.Alias, ">") + "#" + vs.Member + "#" + strings.Join(vs.Subslice, ",") + fmt.Sprint(vs.Typed) + ";")
+		b.WriteString(n + "=" + vs.JSON + strings.Join(vs.Alias, ">") + "#" + vs.Member + "#" + strings.Join(vs.Subslice, ",") + fmt.Sprint(vs.Typed, vs.Carve) + ";")
 	}
 	if exts {
 		b.WriteString("\x00x")
@@ -292,6 +369,24 @@ func (r *runner) harnessExts() map[string]jsonata.Extension {
 			EvalContextHandler: func(argv []reflect.Value) bool {
 				r.handlerLog(fmt.Sprintf("C:%d:%v", len(argv), len(argv) == 1))
 				return len(argv) == 1
+			},
+		},
+		// an Optional trailing parameter; the UndefinedHandler asks whether
+		// the SECOND argument is undefined (as jtypes.ArgUndefined(1) does)
+		"xopt": {
+			Func: func(a float64, b jtypes.OptionalString) string {
+				if b.IsSet() {
+					return fmt.Sprintf("opt:%v:%s", a, b.String)
+				}
+				return fmt.Sprintf("opt:%v:unset", a)
+			},
+			UndefinedHandler: func(argv []reflect.Value) bool {
+				for _, a := range argv {
+					if !a.IsValid() {
+						return true
+					}
+				}
+				return false
 			},
 		},
 		"tick": {Func: func(ms float64) float64 {
@@ -537,6 +632,26 @@ func Execute(spec *Spec, opt Options) *Result {
 				switch op.Kind {
 				case "compile":
 					pm[op.Expr] = tmeta{op.Text, op.Vars, op.Exts}
+				case "erebind":
+					// (generated for single-task histories only: the order of
+					// re-registrations and evaluations is the program order)
+					m, priv := pm[op.Expr]
+					if !priv {
+						m = meta[op.Expr]
+					}
+					nv := map[string]string{}
+					for n, id := range m.vars {
+						nv[n] = id
+					}
+					for n, id := range op.Vars {
+						nv[n] = id
+					}
+					m.vars = nv
+					if priv {
+						pm[op.Expr] = m
+					} else {
+						meta[op.Expr] = m
+					}
 				case "eval", "evalbytes":
 					m, ok := pm[op.Expr]
 					if !ok {
@@ -769,6 +884,7 @@ func (r *runner) execOp(t *engine.Task, ti, oi int, op *Op, res *OpResult) {
 		if d := r.docs[op.Doc]; d != nil {
 			in = d.val
 		}
+		res.vars, res.varsAt = ei.vars, true
 		v, err := ei.e.Eval(in)
 		res.Err = err
 		res.Outcome = oracle.Outcome(v, err)
@@ -794,9 +910,29 @@ func (r *runner) execOp(t *engine.Task, ti, oi int, op *Op, res *OpResult) {
 		res.Outcome = "ok"
 	case "evalbytes":
 		ei := r.lookupExpr(ti, op.Expr)
+		res.vars, res.varsAt = ei.vars, true
 		out, err := ei.e.EvalBytes([]byte(r.docs[op.Doc].spec.JSON))
 		res.Err = err
 		res.Outcome = oracle.BytesOutcome(out, err)
+	case "erebind":
+		// an Expr-level variable is registered again with another value:
+		// from now on the expression's bindings are the new ones
+		ei := r.lookupExpr(ti, op.Expr)
+		nv := map[string]*docInst{}
+		for n, d := range ei.vars {
+			nv[n] = d
+		}
+		reg := map[string]interface{}{}
+		for n, id := range op.Vars {
+			nv[n] = r.docs[id]
+			reg[n] = r.docs[id].val
+		}
+		if err := ei.e.RegisterVars(reg); err != nil {
+			res.Outcome = "err"
+			return
+		}
+		ei.vars = nv
+		res.Outcome = "ok"
 	case "string":
 		ei := r.lookupExpr(ti, op.Expr)
 		res.Outcome = ei.e.String()
@@ -936,7 +1072,11 @@ func (r *runner) postChecks(res *Result) {
 			if r.model != nil || ei.resultVar {
 				continue
 			}
-			tk := tripleKey(ei.text, r.docs[op.Doc], ei.vars, ei.exts)
+			vars := ei.vars
+			if or.varsAt {
+				vars = or.vars
+			}
+			tk := tripleKey(ei.text, r.docs[op.Doc], vars, ei.exts)
 			if op.Kind == "evalbytes" {
 				tk += "\x00bytes"
 			}
@@ -1067,6 +1207,31 @@ func (r *runner) extChecks(res *Result, ti, oi int, op *Op, or *OpResult, ei *ex
 						r.report(res, Violation{Property: "C20", Class: "ext-context-foreign", Oracle: "nested-context-probe", Key: key, Task: ti, Op: oi,
 							Detail: fmt.Sprintf("outer call must receive its own context item %q, outcome %s", name, clip(or.Outcome, 200))})
 					}
+				}
+			}
+		}
+	}
+	// An omitted trailing Optional parameter is "left unset": it is not an
+	// argument of the call, so an UndefinedHandler that returns true when any
+	// of the arguments it is shown is undefined must let these calls through.
+	// Decided for fixed shapes whose value follows from the document alone.
+	if strings.HasPrefix(ei.text, "$xopt(") && op.Kind == "eval" && or.Fired == "" && len(ei.vars) == 0 {
+		if d := r.docs[op.Doc]; d != nil {
+			if m, ok := d.pristine.(map[string]interface{}); ok {
+				n, nok := m["n"].(float64)
+				name, sok := m["name"].(string)
+				want := ""
+				switch {
+				case ei.text == `$xopt(n)` && nok:
+					want = strconv.Quote(fmt.Sprintf("opt:%v:unset", n))
+				case ei.text == `$xopt(n, name)` && nok && sok:
+					want = strconv.Quote(fmt.Sprintf("opt:%v:%s", n, name))
+				case ei.text == `$xopt(nosuch)`, ei.text == `$xopt(n, nosuch)`:
+					want = "error:undefined"
+				}
+				if want != "" && or.Outcome != want {
+					r.report(res, Violation{Property: "C20", Class: "ext-optional-handler", Oracle: "optional-probe", Key: key, Task: ti, Op: oi,
+						Detail: fmt.Sprintf("outcome %s, want %s", clip(or.Outcome, 200), want)})
 				}
 			}
 		}
